@@ -90,6 +90,7 @@ type Interp struct {
 	sumCache       map[*ssa.Function]*sumEntry
 	sumInst        map[sumKey]*term.Term
 	callStack      []*ssa.Function
+	panicStack     string
 	syncMaps       map[*value]*omap
 
 	sched *scheduler
@@ -139,7 +140,8 @@ type frame struct {
 
 // If the target program panics, the interpreter panics with this type.
 type targetPanic struct {
-	v value
+	v     value
+	stack string // target call stack where the panic was first seen unwinding
 }
 
 func (p targetPanic) String() string { return toString(p.v) }
@@ -402,7 +404,7 @@ func visitInstr(fr *frame, instr ssa.Instruction) continuation {
 		fr.runDefers()
 
 	case *ssa.Panic:
-		panic(targetPanic{fr.get(instr.X)})
+		panic(targetPanic{v: fr.get(instr.X)})
 
 	case *ssa.Send:
 		in.chanSend(fr, fr.get(instr.Chan).(*chanObj), fr.get(instr.X))
@@ -469,7 +471,7 @@ func visitInstr(fr *frame, instr ssa.Instruction) continuation {
 		c := in.asInt(fr.get(instr.Cap), 1<<16)
 		l := in.asInt(fr.get(instr.Len), int(c))
 		if l < 0 || c < l {
-			panic(targetPanic{in.runtimeError("makeslice: len out of range")})
+			panic(targetPanic{v: in.runtimeError("makeslice: len out of range")})
 		}
 		slice := make([]value, c)
 		tElt := instr.Type().Underlying().(*types.Slice).Elem()
@@ -548,7 +550,7 @@ func visitInstr(fr *frame, instr ssa.Instruction) continuation {
 	case *ssa.MapUpdate:
 		m := fr.get(instr.Map).(*omap)
 		if m == nil {
-			panic(targetPanic{in.runtimeError("assignment to entry in nil map")})
+			panic(targetPanic{v: in.runtimeError("assignment to entry in nil map")})
 		}
 		key := fr.get(instr.Key)
 		v := fr.get(instr.Value)
@@ -609,11 +611,11 @@ func scalarElems(base []value) bool {
 }
 
 func (in *Interp) nilDeref() {
-	panic(targetPanic{in.runtimeError("invalid memory address or nil pointer dereference")})
+	panic(targetPanic{v: in.runtimeError("invalid memory address or nil pointer dereference")})
 }
 
 func (in *Interp) indexPanic(i int64, n int) {
-	panic(targetPanic{in.runtimeError(fmt.Sprintf("index out of range [%d] with length %d", i, n))})
+	panic(targetPanic{v: in.runtimeError(fmt.Sprintf("index out of range [%d] with length %d", i, n))})
 }
 
 // runtimeError makes a runtime.Error-like value for the target.
@@ -631,7 +633,7 @@ func prepareCall(fr *frame, call *ssa.CallCommon) (fn value, args []value) {
 	} else {
 		recv := v.(iface)
 		if recv.t == nil {
-			panic(targetPanic{fr.i.runtimeError("invalid memory address or nil pointer dereference (method on nil interface)")})
+			panic(targetPanic{v: fr.i.runtimeError("invalid memory address or nil pointer dereference (method on nil interface)")})
 		}
 		if nf := fr.i.nativeMethod(recv.t, call.Method); nf != nil {
 			fn = nf
@@ -654,7 +656,7 @@ func (in *Interp) call(caller *frame, callpos token.Pos, fn value, args []value)
 	switch fn := fn.(type) {
 	case *ssa.Function:
 		if fn == nil {
-			panic(targetPanic{in.runtimeError("invalid memory address or nil pointer dereference (call of nil func)")})
+			panic(targetPanic{v: in.runtimeError("invalid memory address or nil pointer dereference (call of nil func)")})
 		}
 		return in.callSSA(caller, callpos, fn, args, nil)
 	case *closure:
@@ -786,6 +788,10 @@ func runFrame(fr *frame) {
 		case targetPanic, goexitPanic:
 		default:
 			panic(r) // engine abort / path end: propagate without running target defers
+		}
+		if tp, ok := r.(targetPanic); ok && tp.stack == "" {
+			tp.stack = fr.i.targetStack()
+			r = tp
 		}
 		fr.panicking = true
 		fr.panic = r
